@@ -166,9 +166,13 @@ def main():
     # property and the reason in neutral_seeded/KNOWN_NOISY.json; reported as such, not counted as unexpected
     kn_path = os.path.join(HERE, 'neutral_seeded', 'KNOWN_NOISY.json')
     known_noisy = json.load(open(kn_path)) if os.path.exists(kn_path) else {}
+    km_path = os.path.join(HERE, 'seeded', 'KNOWN_MISSED_BY_OWN_CHECK.json')
+    known_missed = json.load(open(km_path)) if os.path.exists(km_path) else {}
     with ProcessPoolExecutor(max_workers=a.jobs) as ex:
         for mid, status, err, out in ex.map(run_one, ms):
             ok = status in ('KILLED', 'SILENT')
+            if status == 'SURVIVED' and mid in known_missed:
+                status, ok = 'SURVIVED-KNOWN(reported by %s)' % ','.join(known_missed[mid].get('reported_by', [])), True
             if status == 'NOISY' and mid in known_noisy:
                 props_hit = sorted({o.split(':')[0] for o in out})
                 if set(props_hit) <= set(known_noisy[mid].get('properties', [])):
